@@ -209,6 +209,38 @@ pub fn android_locate(img: &[u8], name: &str) -> Result<Option<(usize, usize)>, 
     Ok(None)
 }
 
+/// The name list jiff would produce when it reads the header from `hdr` and
+/// then the index block from `idx` (two states of the same file).
+/// `None`: that refresh fails (bad header, short read, non-UTF-8 name, no
+/// names).
+pub fn android_names(hdr: &[u8], idx: &[u8]) -> Option<Vec<String>> {
+    if hdr.len() < 24 || &hdr[..6] != b"tzdata" || hdr[11] != 0 {
+        return None;
+    }
+    std::str::from_utf8(&hdr[6..11]).ok()?;
+    let rd = |o: usize| -> u32 {
+        u32::from_be_bytes([hdr[o], hdr[o + 1], hdr[o + 2], hdr[o + 3]])
+    };
+    let index_off = rd(12) as usize;
+    let data_off = rd(16) as usize;
+    if index_off > data_off || (data_off - index_off) % 52 != 0 {
+        return None;
+    }
+    let block = idx.get(index_off..data_off)?;
+    let mut names = vec![];
+    for e in block.chunks_exact(52) {
+        let mut nm = &e[..40];
+        while nm.last() == Some(&0) {
+            nm = &nm[..nm.len() - 1];
+        }
+        names.push(std::str::from_utf8(nm).ok()?.to_string());
+    }
+    if names.is_empty() {
+        return None;
+    }
+    Some(names)
+}
+
 /// Start-up self check of the generators against jiff's parser. An error
 /// here is a harness error (exit 2), never a violation.
 pub fn self_check() -> Result<(), String> {
